@@ -51,23 +51,24 @@ def register(reg):
         raises={"IndexError": "len(old(self._list)) == 0"},
     )
 
+    reg.spec("hv(value)", "value if isinstance(value, str) else str(value)")
     reg.spec("first_at(lst, key, p)", "lst[p][0].lower() == key.lower() and forall(0, p, lambda j: lst[j][0].lower() != key.lower())")
     # ---- Headers.set: replace the first pair with that key (any letter case), drop the later ones, or append
     reg.contract(
         "werkzeug/datastructures/headers.py:Headers.set", prop="C08,C05,C16", self_model=H, replay="method",
-        params={"key": "str", "value": "str"},
+        params={"key": "str"}, cases=[{"value": "str"}, {"value": "int"}],
         requires=["I_h(self)"],
         ensures=[
             "I_h(self)",
             # no pair had the key: appended at the end, nothing else touched
             "implies(not old(has_key(self, key)), len(self._list) == len(old(self._list)) + 1 and "
-            "        self._list[len(self._list) - 1][0] == key and self._list[len(self._list) - 1][1] == value and "
+            "        self._list[len(self._list) - 1][0] == key and self._list[len(self._list) - 1][1] == hv(value) and "
             "        forall(0, len(old(self._list)), lambda i: self._list[i][0] == old(self._list)[i][0] and self._list[i][1] == old(self._list)[i][1]))",
             # otherwise: the first such pair (position p, unique) is replaced in place, everything before it is untouched,
             # no later pair has the key
             "implies(old(has_key(self, key)), len(self._list) <= len(old(self._list)))",
             "implies(old(has_key(self, key)), exists(0, len(old(self._list)), lambda p: first_at(old(self._list), key, p) and "
-            "     p < len(self._list) and self._list[p][0] == key and self._list[p][1] == value, witness=lambda: ghost_p))",
+            "     p < len(self._list) and self._list[p][0] == key and self._list[p][1] == hv(value), witness=lambda: ghost_p))",
             "implies(old(has_key(self, key)), exists(0, len(old(self._list)), lambda p: first_at(old(self._list), key, p) and "
             "     forall(0, p, lambda j: self._list[j][0] == old(self._list)[j][0] and self._list[j][1] == old(self._list)[j][1]), witness=lambda: ghost_p))",
             "implies(old(has_key(self, key)), exists(0, len(old(self._list)), lambda p: first_at(old(self._list), key, p) and "
@@ -75,11 +76,11 @@ def register(reg):
             # afterwards the key is present exactly once, with the new value
             "has_key(self, key)",
         ],
-        raises={"ValueError": "not clean(value)"},
+        raises={"ValueError": "isinstance(value, str) and not clean(value)"},
         raises_ensures={"ValueError": ["len(self._list) == len(old(self._list))"]},
         loops={0: {"inv": ["forall(0, _i, lambda j: hkey(self, j) != ikey)", "ikey == key.lower()",
                            "self._list == old(self._list)", "len(self._list) > 0"]}},
-        ghost_after={"self._list[idx + 1:] = [t for t in iter_list if t[0].lower() != ikey]": [
+        ghost_after={"self._list[idx + 1:] = ...": [
             "assert forall(idx + 1, len(self._list), lambda j: hkey(self, j) != ikey)",
             "assert forall(idx + 1, len(self._list), lambda j: clean(self._list[j][1]))",
             "assert first_at(old(self._list), key, idx)",
